@@ -81,15 +81,22 @@ class OtoCheck(object):
     def with_ops(self, h, ops):
         return dict(h, ops=list(ops))
 
+    nan = False
+
     def gen_pairs(self, r, side):
         ks, vs = (K, V) if side == 'fwd' else (V, K)
+        if self.nan:
+            ks, vs = ks + ['<nan>'], vs + ['<nan>']
         return [[r.choice(ks), r.choice(vs)] for _ in range(r.choice([0, 1, 2, 3]))]
 
     def gen(self, r, ctx):
         ops = []
+        self.nan = r.random() < 0.2        # a key / value that is not equal to itself (float('nan')) in the pools
         for _ in range(r.randint(1, r.choice([6, 20, 60]))):
             side = r.choice(['fwd', 'fwd', 'inv'])
             ks, vs = (K, V) if side == 'fwd' else (V, K)
+            if self.nan:
+                ks, vs = ks + ['<nan>'], vs + ['<nan>']
             k, v = r.choice(ks), r.choice(vs)
             name = r.choices(['set', 'del', 'update', 'ior', 'setdefault', 'pop', 'popitem', 'clear', 'copy', 'bad'],
                              [25, 8, 14, 8, 6, 8, 4, 1, 5, 5])[0]
@@ -130,7 +137,7 @@ class OtoCheck(object):
 
     @staticmethod
     def m_set(D, k, v):
-        for kk in [kk for kk, vv in D.items() if vv == v and kk != k]:
+        for kk in [kk for kk, vv in D.items() if same(vv, v) and not same(kk, k)]:
             del D[kk]
         D[k] = v
 
@@ -156,7 +163,7 @@ class OtoCheck(object):
                 for k, v in D.items():
                     back[v] = k
                 if len(back) != len(D):
-                    D = dict(dict.items(o)) if all(D.get(k) == v for k, v in dict.items(o)) \
+                    D = dict(dict.items(o)) if all(same(D.get(k), v) for k, v in dict.items(o)) \
                         and set(dict.values(o)) == set(D.values()) else D
         except Exception as e:
             return Failure(-1, 'raised[%s]' % type(e).__name__, 'construction raised %r' % (e,), ['init'])
@@ -176,7 +183,7 @@ class OtoCheck(object):
             if len(o) != len(D) or len(o.inv) != len(D):
                 return Failure(i, 'len', 'len %d/%d model %d' % (len(o), len(o.inv), len(D)), op)
             for k, v in D.items():
-                if o[k] != v or o.inv[v] != k or k not in o or v not in o.inv:
+                if not same(o[k], v) or not same(o.inv[v], k) or k not in o or v not in o.inv:
                     return Failure(i, 'lookup', 'o[%r]/inv[%r] disagree with model' % (k, v), op)
             if twin is not None:
                 t, TD = twin
@@ -325,7 +332,7 @@ class OtoCheck(object):
                         if got != ('exc', 'KeyError'):
                             return Failure(i, 'result[popitem]', '%r on empty' % (got,), op)
                     else:
-                        if got[0] != 'ok' or got[1][0] not in M or M[got[1][0]] != got[1][1]:
+                        if got[0] != 'ok' or got[1][0] not in M or not same(M[got[1][0]], got[1][1]):
                             return Failure(i, 'result[popitem]', '%r not a pair of %r' % (got, M), op)
                         del M[got[1][0]]
                     D = commit(M)
@@ -400,7 +407,8 @@ class M2mCheck(object):
             elif name in ('add', 'remove'):
                 ops.append([side, name, k, v])
             elif name == 'set':
-                ops.append([side, 'set', k, [r.choice(vs) for _ in range(r.choice([0, 1, 2, 3]))]])
+                ops.append([side, 'set', k, [r.choice(vs) for _ in range(r.choice([0, 1, 2, 3]))],
+                            r.choice(['list', 'list', 'set', 'shared-set', 'shared-set', 'frozenset'])])
             elif name == 'del':
                 ops.append([side, 'del', k])
             elif name == 'replace':
@@ -418,6 +426,7 @@ class M2mCheck(object):
         except Exception as e:
             return Failure(-1, 'raised[%s]' % type(e).__name__, repr(e), ['init'])
         P = set(init)
+        shared_set = set()
         others = []     # (instance, its own pair set) that m was updated from: must never change
 
         def readpairs(x):
@@ -519,7 +528,21 @@ class M2mCheck(object):
                 elif name == 'set':
                     k = lf(op[2])
                     vals = [lf(v) for v in op[3]]
-                    obj[k] = vals
+                    how = op[4] if len(op) > 4 else 'list'
+                    if how == 'shared-set':
+                        # one set object the caller owns and re-fills for call after call
+                        shared_set.clear()
+                        shared_set.update(vals)
+                        obj[k] = shared_set
+                    elif how == 'set':
+                        arg = set(vals)
+                        obj[k] = arg
+                        arg.add('zz-caller-scribble')      # ... or goes on using afterwards
+                        arg.discard(vals[0] if vals else None)
+                    elif how == 'frozenset':
+                        obj[k] = frozenset(vals)
+                    else:
+                        obj[k] = vals
                     Q = set(p for p in Q if not same(p[0], k)) | set((k, v) for v in vals)
                 elif name == 'del':
                     k = lf(op[2])
